@@ -1,10 +1,94 @@
 /-
-  Drive/Stub.lean — driver suite `stub` (stub; to be implemented).
+  Drive/Stub.lean — driver suite `stub`: one case = one generated module.
+  Input:  {"suite":"stub","dflt":b,"apd":b,
+           "classes":[{"name","fields":[{"n","c","d","o"}],"required":null|[..],"optional":[..],
+                       "addl":null|b,"bases":[index of earlier class,…]}],
+           "targets":[index,…], "imports":[[name,module],…]}
+  Output: per target class the model's stub `__init__` / helper parameter lists, the model's runtime
+          signature, `_required`, constants, admits-extra and the two known-finding region predicates;
+          the rendered extra-import lines.
 -/
 import TypedpyModel.Drive.Wire
+import TypedpyModel.Sem.Stub
 namespace Typedpy.Drive.Stub
 open Lean (Json)
+open Typedpy.Wire Typedpy.Stub
 
-def run (_j : Json) : Except String Json := .error "suite stub not implemented"
+def fieldOfJson (j : Json) : Except String FieldInfo := do
+  let n ← (← j.getObjVal? "n").getStr?
+  pure { name := n, isConst := ← optBool j "c" false, hasDefault := ← optBool j "d" false,
+         optShape := ← optBool j "o" false }
+
+def declOfJson (j : Json) : Except String (Decl × List Nat) := do
+  let name ← (← j.getObjVal? "name").getStr?
+  let fields ← (← (← j.getObjVal? "fields").getArr?).toList.mapM fieldOfJson
+  let required ← match optField j "required" with
+    | none => pure none
+    | some x => do pure (some (← (← x.getArr?).toList.mapM (·.getStr?)))
+  let optional ← strList j "optional"
+  let addl ← match optField j "addl" with
+    | none => pure none
+    | some x => do pure (some (← x.getBool?))
+  let bases ← match optField j "bases" with
+    | none => pure []
+    | some x => do (← x.getArr?).toList.mapM (·.getNat?)
+  pure ({ name := name, fields := fields, requiredDecl := required, optionalDecl := optional, addl := addl }, bases)
+
+def buildClasses (ds : List (Decl × List Nat)) : Except String (Array ClassInfo) :=
+  ds.foldlM (init := #[]) fun acc (d, bs) => do
+    let bases ← bs.mapM fun i => match acc[i]? with
+      | some c => pure c
+      | none => throw s!"class {d.name}: base index {i} not defined yet"
+    pure (acc.push (.mk d bases))
+
+def paramsToJson (ps : List Param) : Json :=
+  Json.arr (ps.map fun p => Json.arr #[.str p.name, .bool p.hasDefault]).toArray
+
+def sigToJson (s : Sig) : Json := Json.mkObj [("params", paramsToJson s.params), ("kw", .bool s.kw)]
+
+def strsToJson (xs : List String) : Json := Json.arr (xs.map Json.str).toArray
+
+/-- same predicates as `Typedpy.C16.requiredOptional` / `inheritedAddlOn` (Props files are not imported by the driver) -/
+def requiredOptional (dflt : Bool) (c : ClassInfo) : Bool :=
+  (allFields c).any (fun f => !f.isConst && f.optShape && (clsRequired dflt c).contains f.name)
+def inheritedAddlOn (dflt : Bool) (c : ClassInfo) : Bool :=
+  !dflt && c.decl.addl.isNone && (addlLookup (mro c) == some true)
+
+def report (dflt apd : Bool) (c : ClassInfo) : Json :=
+  Json.mkObj [
+    ("name", .str c.decl.name),
+    ("init", sigToJson (stubInit dflt apd c)),
+    ("shallowClone", sigToJson (stubHelper dflt apd .shallowClone c)),
+    ("fromOtherClass", sigToJson (stubHelper dflt apd .fromOtherClass c)),
+    ("fromTrustedData", sigToJson (stubHelper dflt apd .fromTrustedData c)),
+    ("runtime", sigToJson (runtimeSig dflt c)),
+    ("required", strsToJson (clsRequired dflt c)),
+    ("consts", strsToJson (constNames (allFields c))),
+    ("fieldOrder", strsToJson ((allFields c).map (·.name))),
+    ("admitsExtra", .bool (runtimeAdmitsExtra dflt c)),
+    ("requiredOptional", .bool (requiredOptional dflt c)),
+    ("inheritedAddlOn", .bool (inheritedAddlOn dflt c)),
+    ("mandatoryFirst", .bool (mandatoryFirst (stubInit dflt apd c).params))]
+
+def run (j : Json) : Except String Json := do
+  let dflt ← optBool j "dflt" true
+  let apd ← optBool j "apd" true
+  let ds ← (← (← j.getObjVal? "classes").getArr?).toList.mapM declOfJson
+  let classes ← buildClasses ds
+  let targets ← match optField j "targets" with
+    | none => pure (List.range classes.size)
+    | some x => do (← x.getArr?).toList.mapM (·.getNat?)
+  let reps ← targets.mapM fun i => match classes[i]? with
+    | some c => pure (report dflt apd c)
+    | none => throw s!"target index {i} out of range"
+  let imports ← match optField j "imports" with
+    | none => pure []
+    | some x => do
+      (← x.getArr?).toList.mapM fun kv => do
+        let a ← kv.getArr?
+        match a.toList with
+        | [k, v] => pure ((← k.getStr?), (← v.getStr?))
+        | _ => throw "imports entry must be [name, module]"
+  pure (Json.mkObj [("classes", Json.arr reps.toArray), ("imports", strsToJson (renderImports imports))])
 
 end Typedpy.Drive.Stub
